@@ -60,6 +60,21 @@ package meta_leaseset
 //@   }
 //@ }
 
+// C02: the header fields an accepted MetaLeaseSet exposes are the encoded
+// ones: destination, then published(4) expires(2) flags(2), big-endian.
+//@ lemma C02_MetaHeaderFields(data []byte) {
+//@   mls, _, err := ReadMetaLeaseSet(data)
+//@   if err == nil {
+//@     d := mls.Destination()
+//@     db, e := d.Bytes()
+//@     assert(e == nil && len(db)+8 <= len(data) && seqeq(db, data[:len(db)]))
+//@     off := len(db)
+//@     assert(uint64(mls.Published()) == val(data[off:off+4]))
+//@     assert(int(mls.Expires()) == u16(data[off+4:off+6]))
+//@     assert(int(mls.Flags()) == u16(data[off+6:off+8]))
+//@   }
+//@ }
+
 // C15: published + expires is exact.
 //@ lemma C15_MetaExpirationTime(data []byte) {
 //@   mls, _, err := ReadMetaLeaseSet(data)
